@@ -63,12 +63,10 @@ def bisect(
     if not (lower < upper).all():
         raise ValueError("condition lower < upper should be satisfied.")
 
-    if (fn(lower) > fn(upper)).all():
-        # If fn is a decreasing function
-        def mf(inputs: Tensor) -> Tensor:
-            return -fn(inputs)
-
-        return bisect(mf, -target, lower, upper, precision=precision, max_iter=max_iter)
+    # Search each element in its own direction: a decreasing element is searched
+    # as the increasing function -fn with the target -target.
+    sign = torch.where(fn(lower) > fn(upper), -1.0, 1.0)
+    target = sign * target
 
     n_iter = 0
     while torch.max(upper - lower) > precision:
@@ -77,7 +75,7 @@ def bisect(
             raise RuntimeError(f"Aborting since iteration exceeds max_iter={max_iter}.")
 
         m = (lower + upper) / 2
-        output = fn(m)
+        output = sign * fn(m)
         lower = lower.where(output >= target, m)
         upper = upper.where(output < target, m)
 
